@@ -1570,6 +1570,39 @@ def rule_T4(ctx):
         det = "" if ok else f"header field `{fld}` is {f.size if f else '?'} bytes wide: keygroup count no longer bounded by 255"
     ctx.ob("T4", pp, "keygroup chain length is a 1-byte header field (<= 255 keygroups)", ok, det, inst="KeygroupLinkConstruct[count]",
            file="smpl_extract/akai/program.py", qualname="<module>")
+    # sample data windows: the stored quantities a window's offset / size are computed from are unsigned fields, so a window
+    # cannot start before the image (a huge negative offset is clamped to 0 on every read and the same block comes back until
+    # 2^32 bytes were "read": memory and time far beyond the image size)
+    for wpath, sname in (("smpl_extract/akai/sample.py", "SampleHeaderConstruct"),):
+        wm = ctx.prog.module(wpath)
+        try:
+            WL = lay.of_name(wm, sname)
+        except Unknown as e:
+            raise AnalysisError("T4", f"{wpath}:{sname}", f"layout: {e}")
+        decl = ctx.prog.assigned(wpath, sname, "T4")
+        wins = [c for c in ast.walk(decl) if isinstance(c, ast.Call) and isinstance(c.func, ast.Name) and c.func.id == "SubStreamConstruct"]
+        if not wins:
+            raise AnalysisError("T4", f"{wpath}:{sname}", "sample data window (SubStreamConstruct) not found")
+        for wc in wins:
+            used = set()
+            for k in wc.keywords:
+                if k.arg in ("size", "offset"):
+                    from ..core.layout import this_path as _tp
+                    for x in ast.walk(k.value):
+                        tp_ = _tp(x, {"this"}) if isinstance(x, (ast.Attribute, ast.Subscript)) else None
+                        if tp_ and "." not in tp_:
+                            used.add(tp_)
+            for fld in sorted(used):
+                f = WL.field(fld)
+                core = f
+                while core is not None and hasattr(core, "inner") and getattr(core, "kind", None) is None:
+                    core = core.inner
+                if getattr(core, "kind", None) != "int":
+                    continue  # Tell / computed values
+                n += 1
+                ok = core.signed is False
+                ctx.ob("T4", wc, f"window quantity `{fld}` is an unsigned field", ok, "" if ok else f"`{fld}` is {core.desc()}: a stored value with the top bit set places the window before the image",
+                       inst=f"window-unsigned:{sname}.{fld}", file=wpath, qualname="<module>")
     # transcoder default block size is a constant
     v = ctx.const("smpl_extract/transcoder.py", "_DEFAULT_BUFFER_SIZE", "T4")
     node = ctx.prog.assigned("smpl_extract/transcoder.py", "_DEFAULT_BUFFER_SIZE")
